@@ -344,6 +344,17 @@ def method_call(it, n, b, attr, args, kwargs, st):
         if attr in REDUCTIONS:
             shape = reduce_shape(b.shape, kwargs.get("axis", args[0] if args else None))
         kind = "num" if shape == () else "arr"
+        if attr == "dot" and args and b.shape is not None and args[0].shape is not None:
+            sa, sb = b.shape, args[0].shape
+            if len(sa) == 2 and len(sb) == 1:
+                shape = (sa[0],)
+            elif len(sa) == 1 and len(sb) == 2:
+                shape = (sb[1],)
+            elif len(sa) == 2 and len(sb) == 2:
+                shape = (sa[0], sb[1])
+            elif len(sa) == 1 and len(sb) == 1:
+                shape = ()
+            kind = "num" if shape == () else "arr"
         it.emit("mcall", n, st, base=b, method=attr, args=args, kwargs=kwargs)
         return Val(kind, dep=bdep | d, cfg=b.cfg and c, shape=None if kind == "num" else shape, extra=("reduce", attr, b) if attr in REDUCTIONS else ("mcall", attr, b))
     it.emit("mcall", n, st, base=b, method=attr, args=args, kwargs=kwargs)
